@@ -28,6 +28,10 @@ type bufOp struct {
 type bufSc struct {
 	Batch int     `json:"batch"`
 	Ops   []bufOp `json:"ops"`
+	// RestartTail > 0: the inner provider stands still during the last RestartTail operations (they pile up in the wrapper's
+	// queue), the wrapper is closed with them queued, the inner provider moves again, and a second wrapper is opened over the
+	// same datastore and inner provider; nothing is called on it
+	RestartTail int `json:"restart_tail,omitempty"`
 }
 
 type recProvider struct {
@@ -38,9 +42,20 @@ type recProvider struct {
 	// queued models the provide queue of the real provider: StartProviding and ProvideOnce put a key in, StopProviding takes
 	// it out again (if it has not been sent yet - here nothing is ever sent, which is the schedule least favourable to the key)
 	queued map[string]bool
+	gate   chan struct{} // non-nil: every call waits until it is closed
+}
+
+func (r *recProvider) wait() {
+	r.mu.Lock()
+	g := r.gate
+	r.mu.Unlock()
+	if g != nil {
+		<-g
+	}
 }
 
 func (r *recProvider) StartProviding(force bool, keys ...mh.Multihash) error {
+	r.wait()
 	r.mu.Lock()
 	defer r.mu.Unlock()
 	for _, k := range keys {
@@ -52,6 +67,7 @@ func (r *recProvider) StartProviding(force bool, keys ...mh.Multihash) error {
 }
 
 func (r *recProvider) StopProviding(keys ...mh.Multihash) error {
+	r.wait()
 	r.mu.Lock()
 	defer r.mu.Unlock()
 	for _, k := range keys {
@@ -63,6 +79,7 @@ func (r *recProvider) StopProviding(keys ...mh.Multihash) error {
 }
 
 func (r *recProvider) ProvideOnce(keys ...mh.Multihash) error {
+	r.wait()
 	r.mu.Lock()
 	defer r.mu.Unlock()
 	for _, k := range keys {
@@ -83,9 +100,13 @@ func TestVerif_C17_Buffered(t *testing.T) {
 		Property: "C17", Part: "buffered",
 		Rule: "rapid: 1-40 start / forced start / stop / provide-once calls over a universe of 6 keys (1-3 keys per call) with optional pauses, through buffered.SweepingProvider (batch size 1-8) over a recording inner provider; " +
 			"oracle = the inner provider's final keep-set equals the sequential application of the same operations to a set model, and every provide-once key reached the inner provider once per call; " +
-			"non-trivial = some key is started, stopped and started again (or stopped, started, stopped) within the history",
+			"in 30% of the cases the inner provider stands still during the last 1-8 calls, the wrapper is closed with them queued and a second wrapper over the same datastore gets no call at all: the queued operations must reach the inner provider all the same; " +
+			"non-trivial = some key is started, stopped and started again (or stopped, started, stopped) within the history, or a restart with queued operations",
 		Gen: func(t *rapid.T) bufSc {
 			sc := bufSc{Batch: rapid.IntRange(1, 8).Draw(t, "batch")}
+			if verifsim.Chance(t, "restart", 30) {
+				sc.RestartTail = rapid.IntRange(1, 8).Draw(t, "restartTail")
+			}
 			sc.Ops = rapid.SliceOfN(rapid.Custom(func(t *rapid.T) bufOp {
 				op := rapid.SampledFrom([]string{"start", "force", "stop", "stop", "once", "pause"}).Draw(t, "op")
 				if op == "pause" {
@@ -102,10 +123,16 @@ func TestVerif_C17_Buffered(t *testing.T) {
 			flips := map[int]int{}
 			last := map[int]string{}
 			inner := &recProvider{keep: map[string]bool{}, once: map[string]int{}, queued: map[string]bool{}}
+			restarted := false
 			out := verifsim.Bubble(t, func() {
 				d := dssync.MutexWrap(ds.NewMapDatastore())
 				b := New(inner, d, WithBatchSize(sc.Batch))
-				for _, op := range sc.Ops {
+				for i, op := range sc.Ops {
+					if sc.RestartTail > 0 && i == max(0, len(sc.Ops)-sc.RestartTail) {
+						inner.mu.Lock()
+						inner.gate = make(chan struct{})
+						inner.mu.Unlock()
+					}
 					var keys []mh.Multihash
 					for _, k := range op.Keys {
 						keys = append(keys, mh.Multihash(kp.IDs[k]))
@@ -140,6 +167,20 @@ func TestVerif_C17_Buffered(t *testing.T) {
 					case "pause":
 						time.Sleep(time.Duration(op.Pause) * time.Millisecond)
 					}
+				}
+				if sc.RestartTail > 0 {
+					verifsim.Quiesce()
+					closed := make(chan struct{})
+					go func() { defer close(closed); b.Close() }()
+					verifsim.Quiesce()
+					inner.mu.Lock()
+					g := inner.gate
+					inner.gate = nil
+					inner.mu.Unlock()
+					close(g)
+					<-closed
+					b = New(inner, d, WithBatchSize(sc.Batch))
+					restarted = true
 				}
 				time.Sleep(time.Minute)
 				verifsim.Quiesce()
@@ -179,6 +220,10 @@ func TestVerif_C17_Buffered(t *testing.T) {
 				if n >= 2 {
 					res.NonTrivial = true
 				}
+			}
+			if restarted {
+				res.Class("closed-with-operations-queued-and-reopened")
+				res.NonTrivial = true
 			}
 			return
 		},
